@@ -126,6 +126,10 @@ func (s *Sorter) Reset() {
 		s.chunks = s.chunks[:0]
 	}
 	if s.cleanups != nil {
+		// remove the chunk files of the previous run before forgetting them
+		for _, f := range s.cleanups {
+			f()
+		}
 		s.cleanups = s.cleanups[:0]
 	}
 }
